@@ -15,6 +15,7 @@
  */
 #pragma once
 
+#include <unifex/get_stop_token.hpp>
 #include <unifex/manual_lifetime.hpp>
 #include <unifex/receiver_concepts.hpp>
 #include <unifex/scheduler_concepts.hpp>
@@ -67,6 +68,14 @@ private:
 
     void set_done() noexcept {
       unifex::set_done(std::move(outer_.get_receiver()));
+    }
+
+    // The outcome has already been decided when the hop starts, so the hop
+    // itself must not be cancellable: a stop request arriving now would turn
+    // e.g. an already-granted lock into set_done.
+    friend unstoppable_token
+    tag_invoke(tag_t<get_stop_token>, const receiver&) noexcept {
+      return {};
     }
 
     template(typename CPO)                       //
